@@ -8,6 +8,7 @@ A unit template (units/<name>.rs) is Verus text with directive comments:
   //@rule n=<count> `regex` => `replacement`         unit dialect rule (single line)
   //@rule n=<count> `regex` =>>                      multi-line replacement follows ...
   //@rule first `regex` => ..                        rewrite only the first occurrence
+  //@atend [n=] [nth=] `regex` =>>                   insert text just before the closing brace of the brace-delimited statement starting at the match
   ...replacement text...
   //@end
   //@endbody
@@ -404,8 +405,9 @@ def apply_rules(seg, rules, log, where):
             if k:
                 log.append({"rule": name, "matches": k, "where": where, "cut": True})
             continue
-        if name.startswith("after:"):
-            # insert `repl` after the brace-delimited statement that starts at each match
+        if name.startswith("after:") or name.startswith("atend:"):
+            # after: insert `repl` after the brace-delimited statement that starts at each match
+            # atend: insert it just before that statement's closing brace (the end of a loop body / block)
             k, pos, seen = 0, 0, 0
             only = int(name.split(":")[2])
             while True:
@@ -421,6 +423,11 @@ def apply_rules(seg, rules, log, where):
                 if ob < 0:
                     raise LostAnchor("rule %s in %s: no `{` after `%s`" % (name, where, rx))
                 cb = rustlex.match_brace(masked, ob)
+                if name.startswith("atend:"):
+                    seg = seg[:cb] + "\n" + repl + "\n" + seg[cb:]
+                    pos = m.end()
+                    k += 1
+                    continue
                 endp = cb + 1
                 if masked[endp:endp + 1] == ";":
                     endp += 1
@@ -551,7 +558,8 @@ def generate(tpl_path, width="u32", vacuity=False):
                     rules.append(("cut:%d" % (len(rules) + 1), mc.group(2), "\n".join(rep), need))
                     i += 1
                     continue
-                ma = re.match(r"//@after\s+(?:n=(\d+|\*)\s+)?(?:nth=(\d+)\s+)?`(.*)`\s+=>>\s*$", l2)
+                ma = re.match(r"//@(?:after|atend)\s+(?:n=(\d+|\*)\s+)?(?:nth=(\d+)\s+)?`(.*)`\s+=>>\s*$", l2)
+                atend = l2.startswith("//@atend")
                 if ma:
                     rep = []
                     i += 1
@@ -559,7 +567,7 @@ def generate(tpl_path, width="u32", vacuity=False):
                         rep.append(tpl_lines[i][0])
                         i += 1
                     need = None if ma.group(1) in (None, "*") else int(ma.group(1))
-                    rules.append(("after:%d:%s" % (len(rules) + 1, ma.group(2) or "0"), ma.group(3), "\n".join(rep), need))
+                    rules.append((("atend:%d:%s" if atend else "after:%d:%s") % (len(rules) + 1, ma.group(2) or "0"), ma.group(3), "\n".join(rep), need))
                     i += 1
                     continue
                 first = False
